@@ -17,6 +17,7 @@ import backends
 import capture
 import analysis
 import common
+import reuse
 from common import Check, Driver, rs
 
 PROP = "C01"
@@ -304,6 +305,7 @@ def main():
     kinds = ("pandas", "polars", "polars-lazy", "pyarrow", "pyarrow-chunked", "ibis-sqlite")
     float_mode(chk, 15 if q else 150, kinds)
     analysis.narrow_ints(chk, 4 if q else 24, "per-variant aggregates are not the sample statistics")
+    reuse.read_after_mutation(chk, 4 if q else 24, "per-variant aggregates are not the sample statistics")
     chk.cov["rule"] = ("structural: random column requests (duplicates, reversed pairs, empty subsets) x grouped/ungrouped x "
                        "int/float columns x {narwhals, ibis native, ibis fallback}; float: 1-5 variants (int/str/bool ids), "
                        "2..400 rows each, shuffled, modes plain / offset 1e6-1e9 / ties / big ints / tiny spread, 5 input kinds")
